@@ -374,6 +374,9 @@ func c19Run(r *zsim.Run) {
 	}
 	rotations = 0
 	nsteps := 3 + o.Intn(12)
+	if r.Tier == "thorough" && o.Intn(4) == 0 {
+		nsteps = 30 + o.Intn(40) // the thorough tier also draws longer histories (more rotations, more clean-ups)
+	}
 	seq := 0
 	reuseBuf := o.Intn(2) == 0
 	var scratch []byte
